@@ -418,6 +418,7 @@ type State struct {
 	Held    map[string]*Held
 	FreshRefs map[string]bool
 	FreshTypes map[string]*types.Named // struct type of fresh references (for object invariants)
+	Owned     []*Term // channels this goroutine alone may close (ghost owns): exempt from interference, also after being shared
 	Panicking bool
 	PanicVal  *Val
 	Trace   []string
@@ -462,6 +463,7 @@ func (s *State) Clone() *State {
 		LoopEntry: s.LoopEntry,
 		FreshList: s.FreshList[:len(s.FreshList):len(s.FreshList)],
 		FreshTypes: s.FreshTypes,
+		Owned:     s.Owned,
 		LiveIters: s.LiveIters[:len(s.LiveIters):len(s.LiveIters)],
 	}
 	for k, v := range s.Cells {
